@@ -72,7 +72,11 @@ class Reader:
             b = self.byte()
             return b - 256 if b >= 128 else b
         if t in (T_I16, T_I32, T_I64):
-            return unzigzag(self.varint())
+            v = unzigzag(self.varint())
+            bits = 16 if t == T_I16 else 32 if t == T_I32 else 64
+            if not -(1 << (bits - 1)) <= v < (1 << (bits - 1)):
+                raise ThriftError('i%d value %d out of range (a %d-bit reader truncates it)' % (bits, v, bits))
+            return v
         if t == T_DOUBLE:
             return self.take(8)
         if t == T_BINARY:
